@@ -819,6 +819,11 @@ func racePassMain(reps int, tier string, partOf string) {
 						if out := callOne(v, i, name).Out; out != refRes[name] && bad[g] == "" {
 							bad[g] = name + ": " + clip(out) + " <> " + clip(refRes[name])
 						}
+						if k == len(idx)/2 && g%2 == 1 {
+							// half of the goroutines also call the read-only methods that take small int arguments
+							// (GetYun(gender), ...BySect(sect), ...) in the middle of their sweep
+							callIntArgMethods(v, g)
+						}
 					}
 				}()
 			}
@@ -1096,6 +1101,76 @@ func c09Purity(w *W) {
 			})
 			if p {
 				w.Viol("C09:option-leaks-between-handles:panic:"+name, msg, name)
+			}
+		}
+	}
+	// setters on returned value objects change that object only: after every setter of a Fu / ShuJiu / JieQi / Holiday
+	// obtained from one date has been called with foreign values, the same accessor on a fresh object of the same date
+	// and of the same date one year later answers as before
+	{
+		type src struct {
+			name string
+			get  func(y int) interface{}
+		}
+		srcs := []src{
+			{"Lunar.GetShuJiu", func(y int) interface{} { return calendar.NewSolarFromYmd(y, 12, 25).GetLunar().GetShuJiu() }},
+			{"Lunar.GetFu", func(y int) interface{} { return calendar.NewSolarFromYmd(y, 7, 25).GetLunar().GetFu() }},
+			{"Lunar.GetPrevJieQi", func(y int) interface{} { return calendar.NewSolarFromYmd(y, 7, 25).GetLunar().GetPrevJieQi() }},
+			{"Lunar.GetNextJie", func(y int) interface{} { return calendar.NewSolarFromYmd(y, 7, 25).GetLunar().GetNextJie() }},
+			{"Lunar.GetCurrentJieQi", func(y int) interface{} { return calendar.NewSolarFromYmd(y, 6, 21).GetLunar().GetCurrentJieQi() }},
+			{"HolidayUtil.GetHoliday", func(y int) interface{} { return HolidayUtil.GetHoliday(fmt.Sprintf("%d-10-01", y)) }},
+			{"HolidayUtil.GetHolidaysByYm[0]", func(y int) interface{} {
+				l := HolidayUtil.GetHolidaysByYm(y, 10)
+				if l.Len() == 0 {
+					return nil
+				}
+				return l.Front().Value
+			}},
+		}
+		dig := func(o interface{}) string {
+			if o == nil || (reflect.ValueOf(o).Kind() == reflect.Ptr && reflect.ValueOf(o).IsNil()) {
+				return "nil"
+			}
+			return digestObject(o, nil)
+		}
+		for _, sc := range srcs {
+			msg, p := try(func() {
+				before := dig(sc.get(2020)) + " / " + dig(sc.get(2021))
+				victim := sc.get(2020)
+				if victim == nil {
+					return
+				}
+				v := reflect.ValueOf(victim)
+				for i := 0; i < v.Type().NumMethod(); i++ {
+					m := v.Type().Method(i)
+					if !strings.HasPrefix(m.Name, "Set") || m.Type.NumIn() != 2 {
+						continue
+					}
+					var arg reflect.Value
+					switch m.Type.In(1).Kind() {
+					case reflect.String:
+						arg = reflect.ValueOf("1999-01-01")
+					case reflect.Int:
+						arg = reflect.ValueOf(77)
+					case reflect.Bool:
+						arg = reflect.ValueOf(true)
+					case reflect.Ptr:
+						if m.Type.In(1) == reflect.TypeOf(&calendar.Solar{}) {
+							arg = reflect.ValueOf(calendar.NewSolarFromYmd(1999, 1, 1))
+						}
+					}
+					if arg.IsValid() {
+						v.Method(i).Call([]reflect.Value{arg})
+						w.R.Evals++
+					}
+				}
+				after := dig(sc.get(2020)) + " / " + dig(sc.get(2021))
+				if before != after {
+					w.Viol("C09:setter-leaks-to-other-objects:"+sc.name, fmt.Sprintf("after the setters of one object returned by %s were called, fresh objects from %s answer differently: %s", sc.name, sc.name, firstDiffWords(before, after)), sc.name)
+				}
+			})
+			if p {
+				w.Viol("C09:setter-leaks-to-other-objects:panic:"+sc.name, msg, sc.name)
 			}
 		}
 	}
